@@ -43,6 +43,8 @@ def fmt(sig):
 
 
 def run(ctx):
+    from .atomic import validate_before_mutate as _atomic
+    _atomic(ctx, 'C09.R2', ('Recipe.start_stage', 'Recipe.end_stage'))
     from .iterables import single_pass_iterables as _single_pass
     _single_pass(ctx, 'C09.R4', ('Recipe.get_substance_used',))
     # per-well amounts gathered with numpy.vectorize need an explicit result type: without it the type of the first
